@@ -154,7 +154,9 @@ randget_lc (gmp_randstate_t rstate, mp_ptr rp, mpir_ui nbits)
 
   TMP_MARK;
 
-  chunk_nbits = p->_mp_m2exp / 2;
+  /* lc() delivers the high (m2exp + 1) / 2 bits of each X; use exactly those
+     (with m2exp / 2 an odd m2exp left a stray top bit in every chunk) */
+  chunk_nbits = (p->_mp_m2exp + 1) / 2;
   tn = BITS_TO_LIMBS (chunk_nbits);
 
   tp = (mp_ptr) TMP_ALLOC (tn * BYTES_PER_MP_LIMB);
